@@ -281,6 +281,37 @@ func runC06(c *core.Ctx) {
 			case fn == direct:
 				c.Pass("C06.who-authenticates", key, call.Pos(), "in-process pipe of DirectClient (no network peer)")
 			default:
+				// a private helper of the server that pre-authenticates the stream it is handed
+				// (handleAuthenticated(stream)): legitimate when its only caller is server.Client
+				// and the stream is one end of a fresh in-process pipe
+				if isPrivateHelper(c, fn) {
+					all, _ := c.CallSites()
+					sites := all[fn]
+					okAll := len(sites) > 0
+					for _, cs := range sites {
+						if core.FuncKey(cs.Parent()) != "bus.server.Client" {
+							okAll = false
+							continue
+						}
+						okPipe := false
+						for _, a := range cs.Common().Args {
+							if cr, _ := core.CallResult(core.Canon(a)); cr != nil && len(cr.Call.Args) > 0 {
+								if e, ok := core.Canon(cr.Call.Args[0]).(*ssa.Extract); ok {
+									if pc, ok := e.Tuple.(*ssa.Call); ok && pc.Call.StaticCallee() != nil && core.FuncKey(pc.Call.StaticCallee()) == "net.Pipe" {
+										okPipe = true
+									}
+								}
+							}
+						}
+						if !okPipe {
+							okAll = false
+						}
+					}
+					if okAll {
+						c.Pass("C06.who-authenticates", key, call.Pos(), "pre-authenticating helper only called by server.Client() on one end of a fresh net.Pipe()")
+						continue
+					}
+				}
 				c.Fail("C06.who-authenticates", key, call.Pos(), "SetAuthenticated is called from "+core.FuncKey(fn)+", which is not one of the three legitimate places: a connection can become authenticated without credentials")
 			}
 		}
@@ -292,6 +323,12 @@ func runC06(c *core.Ctx) {
 				continue
 			}
 			key := fmt.Sprintf("handle-call@%s#%d", core.FuncKey(fn), i)
+			if len(call.Common().Args) < 3 {
+				// handle has no `authenticated` parameter (any more): who pre-authenticates
+				// is decided at the callers of SetAuthenticated above
+				c.Pass("C06.who-authenticates", key, call.Pos(), "accepted connections start unauthenticated (handle takes no authentication flag)")
+				continue
+			}
 			b, isConst := core.ConstBool(call.Common().Args[2])
 			switch {
 			case !isConst:
